@@ -11,7 +11,7 @@ import common
 import tlc
 
 SERVES = ["C19"]
-HELPS = ["C20"]
+HELPS = ["C20", "C15"]
 
 
 def observe(P, seed, n_cases):
@@ -258,7 +258,7 @@ def report(prop, res):
         mach.append(f'harness errors: {res["harness_errors"][:2]}')
     if res["counts"].get("rows", 0) != res["observations"]:
         mach.append(f'TLC evaluated {res["counts"].get("rows")} of {res["observations"]} observations')
-    nontriv = res["counts"].get("nested" if prop == "C20" else "ineq", 0)
+    nontriv = res["counts"].get("nested" if prop == "C20" else "rows" if prop == "C15" else "ineq", 0)
     if nontriv < 2:
         mach.append(f"vacuous: {nontriv} non-trivial compositions")
     cov = {"states": res["states"], "transitions": res["transitions"], "traces_validated_against_impl": res["observations"],
